@@ -596,8 +596,8 @@ func (in *Interp) binop(op token.Token, x, y Value, t types.Type, xt types.Type)
 		if xs, ok := x.(SymV); ok {
 			if ys, ok := y.(SymV); ok {
 				d := em.def(ys.id)
-				if d != nil && d.kind == "wrap" && d.k == n {
-					d = em.def(d.a)
+				if d != nil && (d.kind == "wrap" || d.kind == "low") && d.k == n {
+					d = em.def(d.a) // the n-bit truncation of the left shift (emitted as `low` since shifts became bit slicing)
 				}
 				if d != nil && d.kind == "shl" {
 					if d2 := em.def(d.a); d2 != nil && d2.kind == "shr" && d2.k == d.k && d2.a == xs.id && d.k < n {
